@@ -6,7 +6,7 @@ package smt
 import (
 	"fmt"
 	"math/big"
-	"strings"
+	"strconv"
 )
 
 type Kind uint8
@@ -85,6 +85,8 @@ func (t *Term) Int64() int64 {
 
 // Ctx owns the hash-consing table. Not safe for concurrent use.
 type Ctx struct {
+	consts map[constKey]*Term
+	keyBuf []byte
 	tab    map[string]*Term
 	nextID int
 	Vars   map[string]*Term
@@ -99,7 +101,7 @@ type UFDecl struct {
 }
 
 func NewCtx() *Ctx {
-	c := &Ctx{tab: map[string]*Term{}, Vars: map[string]*Term{}, UFs: map[string]*UFDecl{}}
+	c := &Ctx{consts: map[constKey]*Term{}, tab: map[string]*Term{}, Vars: map[string]*Term{}, UFs: map[string]*UFDecl{}}
 	c.tt = c.mk(&Term{K: KConst, W: 0, Val: big.NewInt(1)})
 	c.ff = c.mk(&Term{K: KConst, W: 0, Val: big.NewInt(0)})
 	return c
@@ -107,26 +109,52 @@ func NewCtx() *Ctx {
 
 func (c *Ctx) NumTerms() int { return c.nextID }
 
+func (c *Ctx) NumConsts() int { return len(c.consts) }
+
+// TableSize is the number of hash-consed non-constant entries.
+func (c *Ctx) TableSize() int { return len(c.tab) }
+
+// Prune forgets every compound term (they are garbage once a path has ended);
+// constants and variables are kept, ids are never reused.
+func (c *Ctx) Prune() {
+	nt := make(map[string]*Term, 1024)
+	for k, t := range c.tab {
+		if t.K == KConst || t.K == KVar {
+			nt[k] = t
+		}
+	}
+	c.tab = nt
+}
+
 func (c *Ctx) key(t *Term) string {
-	var sb strings.Builder
-	fmt.Fprintf(&sb, "%d:%d:", t.K, t.W)
+	buf := c.keyBuf[:0]
+	buf = strconv.AppendInt(buf, int64(t.K), 10)
+	buf = append(buf, ':')
+	buf = strconv.AppendInt(buf, int64(t.W), 10)
+	buf = append(buf, ':')
 	switch t.K {
 	case KConst:
-		sb.WriteString(t.Val.Text(16))
+		buf = t.Val.Append(buf, 16)
 	case KVar:
-		sb.WriteString(t.Name)
+		buf = append(buf, t.Name...)
 	case KApp:
-		sb.WriteString(t.Name)
-		sb.WriteByte(':')
+		buf = append(buf, t.Name...)
+		buf = append(buf, ':')
 	case KExtract:
-		fmt.Fprintf(&sb, "%d:%d:", t.Hi, t.Lo)
+		buf = strconv.AppendInt(buf, int64(t.Hi), 10)
+		buf = append(buf, ':')
+		buf = strconv.AppendInt(buf, int64(t.Lo), 10)
+		buf = append(buf, ':')
 	case KZExt, KSExt:
-		fmt.Fprintf(&sb, "%d:", t.Hi)
+		buf = strconv.AppendInt(buf, int64(t.Hi), 10)
+		buf = append(buf, ':')
 	}
 	for _, a := range t.Args {
-		fmt.Fprintf(&sb, "%d,", a.ID)
+		buf = strconv.AppendInt(buf, int64(a.ID), 10)
+		buf = append(buf, ',')
 	}
-	return sb.String()
+	c.keyBuf = buf
+	return string(buf)
 }
 
 func (c *Ctx) mk(t *Term) *Term {
@@ -138,6 +166,11 @@ func (c *Ctx) mk(t *Term) *Term {
 	c.nextID++
 	c.tab[k] = t
 	return t
+}
+
+type constKey struct {
+	w int
+	v uint64
 }
 
 func mask(w int) *big.Int {
@@ -172,9 +205,36 @@ func (c *Ctx) BV(v *big.Int, w int) *Term {
 	if w <= 0 {
 		panic("smt: BV width")
 	}
-	return c.mk(&Term{K: KConst, W: w, Val: norm(v, w)})
+	if w <= 64 && v.Sign() >= 0 && v.IsUint64() {
+		return c.BVu(v.Uint64(), w)
+	}
+	n := norm(v, w)
+	if w <= 64 {
+		return c.BVu(n.Uint64(), w)
+	}
+	return c.mk(&Term{K: KConst, W: w, Val: n})
 }
-func (c *Ctx) BVu(v uint64, w int) *Term { return c.BV(new(big.Int).SetUint64(v), w) }
+
+// BVu makes a constant from an unsigned 64-bit value (fast path: its own table).
+func (c *Ctx) BVu(v uint64, w int) *Term {
+	if w <= 0 {
+		panic("smt: BV width")
+	}
+	if w > 64 {
+		return c.mk(&Term{K: KConst, W: w, Val: new(big.Int).SetUint64(v)})
+	}
+	if w < 64 {
+		v &= (uint64(1) << uint(w)) - 1
+	}
+	k := constKey{w, v}
+	if t, ok := c.consts[k]; ok {
+		return t
+	}
+	t := &Term{K: KConst, W: w, Val: new(big.Int).SetUint64(v), ID: c.nextID}
+	c.nextID++
+	c.consts[k] = t
+	return t
+}
 func (c *Ctx) BVi(v int64, w int) *Term  { return c.BV(big.NewInt(v), w) }
 
 func (c *Ctx) Var(name string, w int) *Term {
